@@ -30,14 +30,27 @@ def gen_cip(rng):
     if k < 0.52:
         n = rng.choice([1, 2, 4, 5])
         return ('writef', ('sym', 'T', rng.choice([None, 0, 1])), 196, n, 0, [('i', rng.randrange(-50, 50)) for _ in range(n)])
-    if k < 0.62:
+    if k < 0.57:
         return ('write', ('sym', 'S', 1), rng.choice([195, 195, 196]), 2, [('i', rng.randrange(-9, 9)), ('i', 3)])
+    if k < 0.62:
+        # cross-type writes whose first values fit the tag and a later one does not (refused as a whole), or that all fit
+        if rng.random() < 0.5:
+            return ('writef', ('sym', 'T', rng.choice([None, 1])), 200, 3, 0, [('i', 7), ('i', rng.choice([8, 2 ** 31 - 1])), ('i', rng.choice([2 ** 32 - 1, 2 ** 31, 9]))])
+        return ('write', ('sym', 'S', 0), 199, 2, [('i', rng.choice([5, 32767])), ('i', rng.choice([65535, 32768, 6]))])
     if k < 0.70:
         return ('read', ('sym', rng.choice(['nosuch', 'Tx']), None), 1)            # unknown tag: CIP status 0x05 expected
-    if k < 0.78:
+    if k < 0.74:
         return ('get', ('num', 0x99, 1, 2, None))
+    if k < 0.78:
+        # attribute services that name nothing: an unknown tag, an object / attribute that does not exist (still one reply, reply bit set)
+        # (an object that does not exist is unroutable when addressed by a single request - the session ends with status 0x08, which
+        # the property allows - so those two travel inside a bundle, where the Message Router answers them)
+        return rng.choice([('get', ('sym', 'nosuch', None)), ('set', ('sym', 'Tx', None), [1, 2]), ('get', ('num', 0x99, 1, 9, None)),
+                           ('multi', [('read', ('sym', 'T', None), 1), ('get', ('num', 0x77, 1, 1, None)), ('set', ('num', 0x99, 7, 2, None), [0] * 6),
+                                      ('get', ('num', 0x99, 1, 2, None))])])
     if k < 0.84:
-        return ('set', ('num', 0x99, 1, 2, None), [rng.getrandbits(8) for _ in range(6)])
+        # the whole attribute (6 bytes), or cut short at an element boundary / inside an element / too long: refused, nothing changes
+        return ('set', ('num', 0x99, 1, 2, None), [rng.getrandbits(8) for _ in range(rng.choice([6, 6, 6, 2, 4, 5, 8]))])
     if k < 0.90:
         return ('read', ('num', 0x99, 1, 2, rng.choice([None, 1, 7])), 1)
     members = [gen_cip(rng) for _ in range(rng.randrange(1, 4))]
@@ -331,6 +344,8 @@ def run(ctx):
                         why = 'supported service on an acceptable route answered with encapsulation status 0x%02x and the session ended' % status
                         break
                     continue
+                if not (cfg is None or not q[1] or (cfg != [] and q[1] == cfg)):
+                    why = 'an unroutable request (route path %r on a device configured %r) was answered with encapsulation status 0' % (q[1], cfg); break
                 cip = E.unwrap_send_data(body)
                 svc = {'read': 0x4C, 'readf': 0x52, 'write': 0x4D, 'writef': 0x53, 'get': 0x0E, 'set': 0x10, 'multi': 0x0A}[q[2][0]]
                 if cip is None or not cip or cip[0] != (svc | 0x80):
